@@ -66,7 +66,7 @@ CHECKS = {
             "Generated groups of 2-6 same-class instances with property subsets spelled through canonical / alias / serializes-as / legacy names: (1) if each serializes alone the group "
             "must serialize in every sibling permutation (all n! up to 4, 24 sampled beyond); (2) after read-back each instance shows its own (migrated where legacy) values and database "
             "defaults / neutral values for what it lacked; (3) what it shows for a lacked property must not change when only the siblings' values change; (4) in files mixing 2-7 instances of related classes every instance reads back what it reads back from a file of its own class only; "
-            "(5) every property whose inheriting classes disagree on the database default x all 24 orders of set / lacking instances of two such classes; (6) database-defaults: every (class, canonical property) of the database with a default, stated on the class or inherited (about 6 500 pairs, both sibling orders), must read back that default - found by the harness's own walk up the class chain - for the instance that lacked it. The two pairs of canonical "
+            "(5) every property whose inheriting classes disagree on the database default x all 24 orders of set / lacking instances of two such classes; (6) database-defaults: every (class, canonical property) of the database with a default, stated on the class or inherited (about 6 500 pairs, both sibling orders), must read back that default - found by the harness's own walk up the class chain - for the instance that lacked it, and once more for a class two levels below it in a custom database (bundled database plus two empty subclasses per class) given to both codecs. The two pairs of canonical "
             "properties that share one serialized name in the bundled database are open findings with exhaustive probes.",
             "trusts: PropertyMigration::perform and the BrickColor palette as the definition of a migrated value (their cross-path agreement is C15's subject)",
             "DESIGN.md 2/C08"),
